@@ -47,7 +47,18 @@ EXTRA_TRUSTED = {
             "(S) under simple random sampling without replacement from a population with mean theta, "
             "E[X_i | X_<i] = (N theta - sum_{k<i} X_k)/(N-i+1); = theta for IID draws (textbook, not proved here)"],
 }
-EXTRA_ASSUMPTIONS = {}
+EXTRA_ASSUMPTIONS = {
+    "C07": ["unbounded proof: sorted(enumerate(L), key=k) is taken by its contract (a permutation of the positions ordered by k); the "
+            "precondition 'n_c <= number of cards listing c' is stated over the sorted order (same count under a permutation); "
+            "two contests; the final flag-setting loop and the returned order are decided by the structure-bounded scripts"],
+    "C08": ["unbounded proof: the records handed in are real CVRs (phantom=False); str() of integers is injective; a sum over a list is a "
+            "function of its summands (extensionality, used to identify the code's count with the specification's); two contests; "
+            "loop summaries are checked on the real loop bodies at an arbitrary iteration"],
+    "C04": ["find_best_audit proof: 3 candidates; ballots are duplicate-free rankings with non-negative positions; the difficulty function is "
+            "uninterpreted; that an applicable true assertion contradicts every order ending in the node's tail is the RAIRE paper's lemma, "
+            "not re-proved here; the search loop is covered by the bounded stand-in only"],
+    "C15": ["as C04; whole-search optimality only by the bounded stand-in"],
+}
 
 FUNCTIONS = {}   # script-name prefix -> repository functions under contract
 
